@@ -262,7 +262,7 @@ theorem render_function_of_tables (cfg : Cfg κ) (s s' : Sched) (hs : ValidSched
 /-- **line_permutation_cells**: permuting the results of the input (in particular the result
 lines inside a configuration block) leaves the set of cells and every cell's sample MULTISET
 unchanged. Statistics are functions of the sorted sample, so they are unchanged as long as
-sorting identifies the multiset (no mix of +0 and -0 or of NaN payloads in one cell); first-observation
+sorting identifies the multiset (since commit 803247b: no two NaN payloads of one sign in one cell); first-observation
 orders — hence row order, and which column is the baseline when columns are ordered by first
 observation — may change. -/
 theorem line_permutation_cells {ζ ν : Type} [DecidableEq ζ] (rs rs' : List (Res κ ζ ν)) (h : rs.Perm rs') :
@@ -300,7 +300,8 @@ theorem cellResidue_perm {ν : Type} (rs rs' : List (Res κ (List Bytes) ν)) (h
   exact hg.mem_iff
 
 /-- **line_permutation_statistics**: for a cell whose sample is CLEAN (the sort key separates its
-bit patterns: no +0 next to −0, at most one NaN payload; `clean_of_no_nan_no_mixed_zero`) the
+bit patterns; since commit 803247b orders −0 before +0 this only excludes two NaNs of one sign with
+different payloads: `clean_of_one_nan_pattern`, `clean_of_no_nan`) the
 SORTED sample is the same after any permutation of the input results, hence so is every statistic
 that is a function of the sorted sample. ASSUMPTION ABOUT benchmath, explicit here: `Summary` and
 `Compare` read nothing but `Sample.Values` (sorted), the constant thresholds/confidence and the
